@@ -327,6 +327,10 @@ impl PrimitiveFixedWidthEncode for i64'''),
                 .collect()
         };''', '''        let _ = self.columns.len();
         yield chunk;'''),
+    ('c15_binder_unprotected', 'C15', 'planner-panic', 'src/db.rs',
+     '''            let bound = std::panic::catch_unwind(std::panic::AssertUnwindSafe(|| {
+                binder.bind(stmt.clone())
+            }));''', '''            let bound: std::thread::Result<_> = Ok(binder.bind(stmt.clone()));'''),
 ]
 
 
